@@ -71,10 +71,11 @@ def describe(o):
     return "; ".join(f"{k or 'result'}{list(v.shape)}={np.asarray(v).ravel()[:5].tolist()}" for k, _, v in f[:2])
 
 
-def probe(R, pid, name, da, op, mutations, case=None):
-    """``mutations``: list of (label, fn) where fn(da) changes the SAME object in place."""
-    outcome(op, da)  # first use: whatever the accessor wants to remember, it remembers now
-    for label, mut in mutations:
+def probe(R, pid, name, da, op, mutations, case=None, first_op=None):
+    """``mutations``: list of (label, fn) where fn(da) changes the SAME object in place.  ``first_op``: the operation that
+    uses the object first (default: the probed one) - one feature must not poison the object for another."""
+    outcome(first_op or op, da)  # first use: whatever the accessor wants to remember, it remembers now
+    for label, mut in [("nothing (second use of the same object)", lambda d: None)] + list(mutations):
         mut(da)
         want = outcome(op, fresh(da))
         got = outcome(op, da)
@@ -219,4 +220,6 @@ def shard(spec, R, pid):
             muts.append(("the time coordinate re-assigned in another order", relabel_time(rng)))
         R.evaluation()
         R.case(True, "reuse", pid, name, dtype, order, it)
-        probe(R, pid, f"{name} ({dtype}, dims {order})", da, ops[name], muts, case={"cube": np.asarray(da.values), "dims": list(order), "dtype": dtype, "attrs": {k: float(v) for k, v in da.attrs.items()}})
+        first = list(ops)[H.pick(it, 5, len(ops))]
+        R.count("reuse_first_use_by_another_operation" if first != name else "reuse_first_use_by_the_same_operation")
+        probe(R, pid, f"{name} after {first} ({dtype}, dims {order})", da, ops[name], muts, first_op=ops[first], case={"cube": np.asarray(da.values), "dims": list(order), "dtype": dtype, "attrs": {k: float(v) for k, v in da.attrs.items()}})
